@@ -126,6 +126,7 @@ type ReplaySpec struct {
 	Kind    string            `json:"kind"`     // "repo" (overlay into /repo) or "gen" (generated module)
 	PkgDirs []string          `json:"pkg_dirs"` // repo package dirs with harness files (first = entry package)
 	Gen     map[string]string `json:"gen,omitempty"`
+	Extra   map[string]string `json:"extra_files,omitempty"` // generated overlay files (path relative to /repo)
 }
 
 type ReplayFile struct {
@@ -307,6 +308,9 @@ func NativeReplay(rf *ReplayFile, modelPath string) (string, string) {
 		ov, err := RepoOverlay(rf.Spec.PkgDirs...)
 		if err != nil {
 			return "error", err.Error()
+		}
+		for rel, content := range rf.Spec.Extra {
+			ov[filepath.Join(RepoDir, rel)] = []byte(content)
 		}
 		entryDir := rf.Spec.PkgDirs[0]
 		pkgName := ""
